@@ -463,6 +463,8 @@ func (s *seqState) form() bool {
 		s.violate("C17/form/ContractCost-does-not-fund-contract", fmt.Sprintf("ContractCost renter %v + host %v = %v, but contract outputs + tax + miner fee = %v", rc, hc, got, want), map[string]any{"new_contract": jsonOf(fc)})
 	}
 	b.Count("formations_checked", 1)
+	b.SetAdd("constructors_exercised", "NewContract")
+	b.SetAdd("constructors_exercised", "ContractCost")
 	s.signContract(&fc)
 	s.fc = fc
 	au, txn, ok := s.submitFunded("formation", rc, hc, func() types.V2Transaction {
@@ -567,6 +569,7 @@ func (s *seqState) revise(helper, op string, exp rhp4.Usage, growth bool, rec ma
 		b.Count("boundary_missed_risked_minus_1", 1)
 	}
 	b.Distinct("rev", helper, op, rc, cc, growth, s.priceShape())
+	b.SetAdd("constructors_exercised", helper)
 	lackFunds, lackColl := renter.Cmp(cost) < 0, missed.Cmp(risk) < 0
 	if lackFunds || lackColl {
 		if lackFunds {
@@ -952,6 +955,8 @@ func (s *seqState) judgeRenewal(kind, ctor string, renewal types.V2FileContractR
 		b.Count("refreshes_partial_checked", 1)
 	}
 	b.SetAdd("rollover_shapes", kind+" "+shape)
+	b.SetAdd("constructors_exercised", ctor)
+	b.SetAdd("constructors_exercised", costName)
 	b.Distinct(kind, shape, s.priceShape(), rc.IsZero(), hc.IsZero(), renewal.FinalRenterOutput.Value.IsZero(), renewal.FinalHostOutput.Value.IsZero())
 
 	s.signContract(&renewal.NewContract)
@@ -1319,7 +1324,7 @@ func runV4(b *harness.B) {
 		b.Count("blocks_validated", h)
 		bases = append(bases, c)
 	}
-	n := b.Pick(2500, 30000)
+	n := b.Pick(2000, 25000)
 	for i := 0; i < n; i++ {
 		runSequence(b, r, bases[r.IntN(len(bases))], i)
 	}
